@@ -54,11 +54,32 @@ def _impl():
     return DataType, base, to_impl, to_model
 
 
+def _model_of(expr):
+    """Model value of a DataType expression such as '~D.STRING' or 'D.BOOL | D.MESSAGE'."""
+    class _M(frozenset):
+        def __or__(self, o):
+            return _M(frozenset.__or__(self, o))
+
+        def __invert__(self):
+            return _M(frozenset(NAMES) - self)
+
+    ns = {n: _M([n]) for n in NAMES}
+    ns.update({k: _M(v) for k, v in DERIVED.items()})
+    D = type('D', (), ns)
+    return frozenset(eval(expr, {'D': D}))
+
+
+def _model_env(n):
+    return {}
+
+
 def plan(tier):
     units = [('pairs', lo, min(lo + 8, 128)) for lo in range(0, 128, 8)]
     units.append(('misc',))
     # triples cost ~6 s on 16 cores: complete in both tiers
     units += [('triples', lo, lo + 2) for lo in range(0, 128, 2)]
+    units += [('cold', k, 16) for k in range(16)]
+    units.append(('families',))
     return units
 
 
@@ -141,6 +162,70 @@ def run(unit):
             if got != frozenset():
                 r.violation('union of no sets is not the empty set', {'op': 'union', 'sets': []}, f'union([]) gave {got}', size=0)
         r.count('states', 128)
+    elif kind == 'families':
+        # long families (7 and more members): union must still be the least upper bound
+        from itertools import combinations
+
+        for k in (2, 3, 4):
+            for bases in combinations(NAMES, k):
+                subsets = [frozenset(c) for n in range(1, k + 1) for c in combinations(bases, n)]
+                for fam in (subsets, list(reversed(subsets)), subsets + subsets):
+                    r.count('evaluations')
+                    r.count('transitions')
+                    try:
+                        got = to_model(DataType.union([to_impl(x) for x in fam]))
+                    except Exception as e:  # noqa: BLE001
+                        got = 'raised ' + type(e).__name__
+                    if got != frozenset(bases):
+                        r.violation('union of a long family is not the least upper bound', {'op': 'union', 'sets': [_w(x) for x in fam]}, f'{len(fam)} members over {bases}: got {got}', size=len(fam))
+        chain = [frozenset(NAMES[:i]) for i in range(1, 8)]
+        for fam in (chain, chain[:6], chain[:6] * 2):
+            r.count('evaluations')
+            got = to_model(DataType.union([to_impl(x) for x in fam]))
+            exp = frozenset().union(*fam)
+            if got != exp:
+                r.violation('union of a long family is not the least upper bound', {'op': 'union', 'sets': [_w(x) for x in fam]}, f'chain of {len(fam)}: got {got}', size=len(fam))
+        r.count('states', r.counters['evaluations'])
+    elif kind == 'cold':
+        # one fresh interpreter per pair: nothing is materialised before the call under test
+        import os
+        import subprocess
+        import sys
+
+        from hplmc.core import REPO
+
+        _, k, shards = unit
+        named = ['BOOL', 'NUMBER', 'STRING', 'ARRAY', 'RANGE', 'SET', 'MESSAGE', 'PRIMITIVE', 'ITEM', 'COMPOUND', 'ANY']
+        exprs = [f'D.{n}' for n in named] + [f'~D.{n}' for n in named[:10]] + ['D.BOOL | D.MESSAGE', 'D.NUMBER | D.ARRAY | D.SET', '~(D.BOOL | D.RANGE)']
+        script = (
+            'import sys\n'
+            'from hpl.types import DataType as D\n'
+            'a = eval(sys.argv[1]); b = eval(sys.argv[2])\n'
+            'try:\n'
+            '    r = a.cast(b)\n'
+            '    print("ok", ",".join(n for n in %r if r & D[n]))\n'
+            'except TypeError:\n'
+            '    print("TypeError")\n' % (NAMES,)
+        )
+        env = dict(os.environ)
+        env['PYTHONPATH'] = str(REPO / 'src')
+        idx = 0
+        for ea in exprs:
+            for eb in exprs:
+                idx += 1
+                if idx % shards != k:
+                    continue
+                a, b = _model_of(ea), _model_of(eb)
+                r.count('evaluations')
+                r.count('transitions')
+                pr = subprocess.run([sys.executable, '-c', script, ea, eb], capture_output=True, text=True, env=env, timeout=60)
+                out = pr.stdout.strip()
+                inter = a & b
+                exp = 'ok ' + ','.join(n for n in NAMES if n in inter) if inter else 'TypeError'
+                if out != exp:
+                    r.violation('cast in a fresh interpreter: ' + ('a disjoint pair does not raise TypeError' if not inter else 'wrong result for an overlapping pair'),
+                                {'op': 'cold', 'a': ea, 'b': eb}, f'({ea}).cast({eb}) in a fresh interpreter: expected {exp!r}, got {out!r} {pr.stderr[-120:]!r}', size=len(ea) + len(eb))
+        r.count('states', r.counters['evaluations'])
     else:  # triples
         _, lo, hi = unit
         for i in range(lo, hi):
@@ -228,6 +313,9 @@ def replay(w):
         got = getattr(to_impl(a), op)
         if got is not (CAN_BE_PROPS[op] in a):
             out.append({'sig': op + ' wrong', 'detail': f'got {got!r}'})
+    elif op == 'cold':
+        rr = run(('cold', 0, 1))
+        out = [{'sig': v['sig'], 'detail': v['detail']} for v in rr.violations]
     elif op == 'assoc':
         a, b, c = fs(w['a']), fs(w['b']), fs(w['c'])
         A, B, C = to_impl(a), to_impl(b), to_impl(c)
@@ -251,7 +339,7 @@ def replay(w):
 def describe(tier):
     return {
         'rule': 'all 128 type sets; every ordered pair (cast, can_be, union); the seven can_be_* and derived members'
-        + '; every triple for associativity / union of three'
+        + '; every triple for associativity / union of three; 24 x 24 pairs of named members, complements and unions each cast in a fresh interpreter (nothing materialised beforehand); long families (all non-empty subsets of every 2-4 base types, chains) for union'
         + '. A state is one tuple of type sets; a transition one call of the real DataType API; non-trivial = every tuple (all are distinct).',
         'bounds': {'type_sets': 128, 'tuple_arity': 3},
         'exhaustive': True,
